@@ -34,6 +34,19 @@ def gen_cases(ck):
                       "p_rev": float(ck.rng.choice([0.0, 0.5])), "shifts": True, "relabel": bool(ck.rng.integers(2)),
                       "fit": ["dlite", "taubinSVD"][int(ck.rng.integers(2))], "method": [None, None, "lsq", "lsq_linear"][int(ck.rng.integers(4))],
                       "ne": [None, None, int(ck.rng.integers(2, 13))][int(ck.rng.integers(3))]})
+    for i in range(4 if ck.tier == "quick" else 20):
+        # the algebraic circle fit far from the origin (1e4..1e6 tissue sizes; the iterative fit is not accurate there)
+        cases.append({"type": "tissue", "seed": int(ck.rng.integers(1 << 30)), "tissue": ["random", "jitter", "hex", "quad"][i % 4],
+                      "sites": int(ck.rng.integers(24, 50)), "subset": None, "min_ridge": 0.004, "mobius": True, "strength": float(ck.rng.uniform(0.8, 2.0)),
+                      "kmin": 2, "kmax": 6, "param_mode": "uniform", "angle": float(ck.rng.uniform(0, 6.28)), "scale": 1.0,
+                      "shift": [float(10.0 ** ck.rng.uniform(4, 6)), float(-10.0 ** ck.rng.uniform(4, 6))], "p_rev": 0.5, "shifts": True,
+                      "relabel": False, "fit": "taubinSVD", "method": [None, "lsq_linear"][i % 2], "ne": None})
+    for i in range(4 if ck.tier == "quick" else 20):
+        # a curved interface whose first chord at a junction is exactly parallel to an axis
+        cases.append({"type": "tissue", "seed": int(ck.rng.integers(1 << 30)), "tissue": ["random", "jitter"][i % 2], "sites": int(ck.rng.integers(24, 44)),
+                      "subset": None, "min_ridge": 0.004, "mobius": True, "strength": float(ck.rng.uniform(1.0, 2.5)), "kmin": 1, "kmax": [1, 3, 8][i % 3],
+                      "param_mode": "uniform", "angle": 0.0, "scale": float(10.0 ** ck.rng.uniform(-1, 1)), "shift": [0.0, 0.0], "p_rev": 0.5, "shifts": True,
+                      "relabel": False, "fit": ["dlite", "taubinSVD"][i % 2], "method": None, "ne": None, "axis_chord": True})
     for i in range(4 if ck.tier == "quick" else 24):
         # an inner two-point interface exactly parallel to a coordinate axis (tangent with an exactly vanishing component)
         cases.append({"type": "tissue", "seed": int(ck.rng.integers(1 << 30)), "tissue": ["random", "jitter", "quad"][i % 3],
@@ -53,7 +66,11 @@ def gen_cases(ck):
 
 
 def run_case(ck, case, reqs, pending):
-    sc = statics.build_static_axis_ridge(case) if case.get("axis_ridge") else statics.build_static(case)
+    if case.get("axis_chord"):
+        from props.c02 import axis_chord
+        sc = axis_chord(case)
+    else:
+        sc = statics.build_static_axis_ridge(case) if case.get("axis_ridge") else statics.build_static(case)
     if sc is None:
         ck.count("rejected_tissue"); return
     fit, method, ne = case.get("fit", "dlite"), case.get("method"), case.get("ne")
@@ -117,6 +134,17 @@ def run_case(ck, case, reqs, pending):
     ck.dist["worst_error_over_tolerance"] = max(ck.dist.get("worst_error_over_tolerance", 0.0), (err / tol) if not ph.d2 else 0.0)
     if err > tol:
         sig = SIG_D2 if ph.d2 else None
+        if sig is not None:
+            # the known finding explains the error only if every coefficient that is NOT mirrored is the true tangent
+            for (j, rg), (cx, cy) in ph.coefs.items():
+                if (j, rg) in ph.d2 or rg is None:
+                    continue
+                col = ph.ridges.index(rg)
+                a_, b_ = tuple(rg)
+                t_ = statics.true_direction(sc, j, b_ if a_ == j else a_, len(ph.used[col]))
+                if max(abs(cx - t_.real), abs(cy - t_.imag)) > 2 * coef_tol:
+                    sig = None
+                    break
         if sig is None and physical.unconverged_fits(ph.frame, ph.used, fit):
             sig = physical.SIG_FIT
         worst = int(np.argmax(np.abs(x - tau)))
